@@ -471,7 +471,7 @@ func copySim(order map[int][]uint32) map[int][]uint32 {
 // genScaleOps lays bulk steps between ordinary ones (ord draws one ordinary step; noteIDs tells
 // the ordinary generator about file ids a bulk step has opened, so that ordinary writes / closes /
 // acknowledgements also hit them).
-func genScaleOps(t *rapid.T, c *CaseA, na int, ord func() OpA, noteIDs func(ag int, fids []uint32)) {
+func genScaleOps(t *rapid.T, c *CaseA, na int, ord func() OpA, envOn bool, noteIDs func(ag int, fids []uint32)) {
 	thorough := core.Tier() == "thorough"
 	openW, chunkW, openMax := []int{6, 3, 1}, []int{5, 3, 1, 1}, 1025
 	shotW, agentW, reopenW := []int{6, 2, 1}, []int{3, 2}, []int{6, 3, 1}
@@ -540,6 +540,9 @@ func genScaleOps(t *rapid.T, c *CaseA, na int, ord func() OpA, noteIDs func(ag i
 		if op.Mode&3 != 0 {
 			big(&op, op.N)
 		}
+		if envOn {
+			genStepCond(t, &op)
+		}
 		c.Ops = append(c.Ops, op)
 		for _, k := range []int{0, op.N / 2, op.N - 1} {
 			ag := op.Ag
@@ -588,6 +591,9 @@ func genScaleOps(t *rapid.T, c *CaseA, na int, ord func() OpA, noteIDs func(ag i
 			op.K = "bshot"
 			op.N = drawScale(t, "shots", shotW, shotMax)
 		}
+		if envOn {
+			genStepCond(t, &op)
+		}
 		c.Ops = append(c.Ops, op)
 	}
 
@@ -620,6 +626,7 @@ type bulkEnv struct {
 	unbind    func(xkey)
 	dispatch  func(a *agent.Agent, cmd uint32, body []byte)
 	bytesLeft *int
+	dlState   func(ai int) string // environment: the state of the agent's Download folder ("file": replaced by a file)
 }
 
 // run performs the primitive calls of a bulk step against the real agent code and the model (the same
@@ -632,7 +639,12 @@ func (e *bulkEnv) run(i int, op OpA, ai int) (*core.Violation, string) {
 	writer := map[string]string{"bopen": "DownloadAdd", "bwrite": "DownloadWrite", "bclose": "DownloadClose", "breopen": "DownloadReopen", "bshot": "DemonSaveScreenshot"}[op.K]
 	writer = "bulk:" + writer
 	desc := fmt.Sprintf("bulk step %s via %s agent %s n=%d mode=%d (%d calls)", op.K, op.Via, e.ids[ai], op.N, op.Mode, len(ms))
-	p := permit{writer: writer, region: w.dlDir(e.ids[ai]), noWriteSig: "wrote-other-file", targetIn: true}
+	p := permit{writer: writer, region: w.phys(w.dlDir(e.ids[ai])), noWriteSig: "wrote-other-file", targetIn: true}
+	// the whole loop of calls runs under the step's environment condition: with k descriptors left the first k
+	// opens of a bulk open may succeed; the harness's own work inside the loop needs no descriptor
+	cond := w.condOf(op, e.ids[ai])
+	cond.begin()
+	defer cond.end()
 	if op.Spread {
 		p.region = w.agents
 	}
@@ -649,7 +661,8 @@ func (e *bulkEnv) run(i int, op OpA, ai int) (*core.Violation, string) {
 	}
 	for j, m := range ms {
 		a, id := e.agents[m.ag], e.ids[m.ag]
-		dl := w.dlDir(id)
+		ldl := w.dlDir(id)
+		dl := w.phys(ldl)
 		key := xkey{m.ag, m.fid}
 		switch m.k {
 		case 'o':
@@ -658,9 +671,11 @@ func (e *bulkEnv) run(i int, op OpA, ai int) (*core.Violation, string) {
 			if _, dup := e.open[key]; dup {
 				continue // precondition: file ids of simultaneous transfers differ
 			}
-			target, comps := dlTarget(dl, name)
-			contained := inside(dl, target)
-			altTarget, _ := dlTarget(dl, normaliseHostile(name))
+			target, comps := dlTarget(ldl, name)
+			contained := inside(ldl, target)
+			target = w.phys(target)
+			altTarget, _ := dlTarget(ldl, normaliseHostile(name))
+			altTarget = w.phys(altTarget)
 			if targets[m.ag][target] || loose && targets[m.ag][altTarget] {
 				continue // precondition: simultaneous transfers have distinct target names
 			}
@@ -668,6 +683,7 @@ func (e *bulkEnv) run(i int, op OpA, ai int) (*core.Violation, string) {
 				continue // the descriptor limit of this process, not the teamserver's business
 			}
 			must := contained && !loose && plainComponents(comps) && len(target) < 3000 && fsAllowsCreate(dl, comps)
+			must = must && !cond.hostile() && e.dlState(m.ag) != "file"
 			switch m.via {
 			case "fs":
 				enc := &demonref.Enc{}
@@ -684,19 +700,22 @@ func (e *bulkEnv) run(i int, op OpA, ai int) (*core.Violation, string) {
 			}
 			if !dirsOf[m.ag] {
 				dirsOf[m.ag] = true
-				p.dirsExact = append(p.dirsExact, w.agentDir(id), dl)
+				p.dirsExact = append(p.dirsExact, w.phys(w.agentDir(id)), dl)
 				p.dirsUnder = append(p.dirsUnder, dl)
 			}
 			d := a.DownloadGet(int(m.fid))
 			if d != nil && loose {
 				// a decorated name may be stored under any spelling inside the Download folder: the transfer says
 				// which one, the walk below verifies that it is a file of this step with the right bytes
-				target = filepath.Clean(d.LocalFile)
+				target = w.phys(w.abs(d.LocalFile))
 				contained = inside(dl, target)
 			}
 			if d != nil && !contained {
 				return core.V(writer+"|file-outside|"+where(dl, target),
 					"step %d (%s) call %d: the transfer of %q was accepted although its target %s is outside %s", i, desc, j, name, w.rel(target), w.rel(dl)), writer
+			}
+			if cond.hostile() {
+				noteEffect(fmt.Sprintf("bulk open under %s: accepted=%v", cond.name(), d != nil))
 			}
 			if d != nil {
 				e.bind(key, &xfer{target: target})
@@ -759,6 +778,10 @@ func (e *bulkEnv) run(i int, op OpA, ai int) (*core.Violation, string) {
 			shotOf[m.ag] = true
 		}
 	}
+	cond.end()
+	if cond.broken {
+		return nil, "no-verdict"
+	}
 	for t := range allowed {
 		t := t
 		p.allowFile(t, func(_ []byte, _ bool, cur []byte) string {
@@ -769,8 +792,8 @@ func (e *bulkEnv) run(i int, op OpA, ai int) (*core.Violation, string) {
 		})
 	}
 	for ag := range shotOf {
-		sd := w.shotDir(e.ids[ag])
-		p.dirsExact = append(p.dirsExact, w.agentDir(e.ids[ag]), sd)
+		sd := w.phys(w.shotDir(e.ids[ag]))
+		p.dirsExact = append(p.dirsExact, w.phys(w.agentDir(e.ids[ag])), sd)
 		found := false
 		if ents, err := os.ReadDir(sd); err == nil {
 			for _, en := range ents {
@@ -780,7 +803,7 @@ func (e *bulkEnv) run(i int, op OpA, ai int) (*core.Violation, string) {
 				}
 			}
 		}
-		if !found {
+		if !found && !cond.hostile() {
 			return core.V(writer+"|no-file", "step %d (%s): no Desktop_*.png in %s after successful screenshot callbacks", i, desc, w.rel(sd)), writer
 		}
 	}
